@@ -8,7 +8,7 @@ randomS), 2..5 increasing radii, factor f, position mode. Oracle: (1) structural
 """
 import numpy as np
 
-from vlib.core import Result, pmap, merge_results, run_hypothesis, quiet, load_known
+from vlib.core import digest, Result, pmap, merge_results, run_hypothesis, quiet, load_known
 from vlib.grids import snapshot, scribble, sphere_grid, full_grid, position_grid, dense
 
 _ROT = {}
@@ -50,18 +50,31 @@ def judge(case):
     factor, as a scan over the metric factor would build it."""
     out = judge_one(case, float(case["factor"]))
     if not out and case.get("factor2") is not None:
-        out = [(tag, f"[second grid with the same names, factor {case['factor2']}] " + msg)
-               for tag, msg in judge_one(case, float(case["factor2"]))]
+        # the second factor either on a newly built grid, or - for every other case - assigned to the `factor` attribute of a
+        # grid that was built and fully queried with the first factor (re-using the expensive object in a factor scan)
+        reassign = int(digest([case.get("order"), case["factor2"]]), 16) % 2 == 1
+        label = "same grid object, factor attribute reassigned to" if reassign else "second grid with the same names, factor"
+        out = [(tag, f"[{label} {case['factor2']}] " + msg)
+               for tag, msg in judge_one(case, float(case["factor2"]), built_with=float(case["factor"]) if reassign else None)]
     return out
 
 
-def judge_one(case, f):
+def judge_one(case, f, built_with=None):
     b, o, t = names(case)
     n_b, n_o, n_t = case["n_b"], case["n_o"], len(case["radii"])
     n = n_b * n_o * n_t
     out = []
     try:
-        fg = full_grid(b, o, t, factor=f, cartesian=case["cartesian"])
+        fg = full_grid(b, o, t, factor=f if built_with is None else built_with, cartesian=case["cartesian"])
+        if built_with is not None:
+            with quiet():
+                for warm in (fg.get_total_volumes, fg.get_full_adjacency, fg.get_full_borders, fg.get_full_distances):
+                    warm()
+                try:
+                    fg.get_full_prefactors()
+                except Exception:
+                    pass
+            fg.factor = f
         getters = {"adjacency": fg.get_full_adjacency, "borders": fg.get_full_borders, "distances": fg.get_full_distances,
                    "volumes": fg.get_total_volumes, "array": fg.get_full_grid_as_array}
         order = case.get("order") or sorted(getters)
